@@ -43,4 +43,59 @@ def step {α} (s : Store α) : Op α → Store α
 def lookup {α} (s : Store α) (q : Query) : Option (Entry α) :=
   if msgKey q = [] then none else (s.find? (fun p => p.1 == msgKey q)).map (·.2)
 
+/-! ## Plugin chains: several cache plugins, the question may change between them
+
+What travels along a chain, as far as C04 is concerned: the question the next
+plugin sees, and whatever else the query context carries (stored values, marks),
+which `Context.Copy` duplicates and which no plugin that rewrites the question
+(`redirect`, `prefer_ipv4` / `prefer_ipv6` on a copy) resets. -/
+structure Ctx where
+  q : Query
+  carried : List Bytes
+  deriving DecidableEq
+
+/-- The key `Cache.Exec` looks up and stores under, as a function of the context
+it is handed. The regenerated fact says whether it is `getMsgKey(qCtx.Q())`,
+evaluated by this `Exec` and used for every access; for any other reading no
+key function is known. -/
+def execKey (keyOfCurrentQuery singleKey : Option Bool) : Option (Ctx → Bytes) :=
+  if keyOfCurrentQuery = some true ∧ singleKey = some true then some (fun ctx => msgKey ctx.q) else none
+
+/-- What is observable at the cache plugins of a chain. The contexts of two
+events are unrelated: between two cache plugins the question may be rewritten in
+place or on a copy in any way. -/
+inductive Ev where
+  | store (cache : Nat) (ctx : Ctx) (v : Nat)  -- miss path: `cache` saved answer `v` as the answer of `ctx`
+  | hit (cache : Nat) (ctx : Ctx) (v : Nat)    -- `cache` answered `ctx` with the stored answer `v`
+  deriving DecidableEq
+
+structure Rec where
+  cache : Nat
+  key : Bytes
+  storedBy : Query
+  val : Nat
+  deriving DecidableEq
+
+/-- Trace acceptor. Every stored answer is remembered (expiry, eviction and the
+order of two concurrent stores under one key are C05 / C11 matters): a hit is
+accepted iff this cache instance has at some point stored that answer under the
+key of the context that is being served. -/
+def accept (keyFn : Ctx → Bytes) (s : List Rec) : Ev → Option (List Rec)
+  | .store c ctx v => if keyFn ctx = [] then some s else some (⟨c, keyFn ctx, ctx.q, v⟩ :: s)
+  | .hit c ctx v =>
+    if keyFn ctx != [] && s.any (fun r => r.cache == c && r.key == keyFn ctx && r.val == v) then some s else none
+
+def acceptAll (keyFn : Ctx → Bytes) : List Rec → List Ev → Option (List Rec)
+  | s, [] => some s
+  | s, e :: es => match accept keyFn s e with
+    | some s' => acceptAll keyFn s' es
+    | none => none
+
+/-- Index of the first event the acceptor refuses. -/
+def firstRejected (keyFn : Ctx → Bytes) : List Rec → List Ev → Nat → Option Nat
+  | _, [], _ => none
+  | s, e :: es, i => match accept keyFn s e with
+    | some s' => firstRejected keyFn s' es (i + 1)
+    | none => some i
+
 end Model.C04
